@@ -13,7 +13,7 @@ META = {
         "= (kind, ndim, sorted set of operations in the tree, dtypes of the leaves); "
         "non-trivial = tree with >= 2 operations (kinds 2,3: always)."
     ),
-    "cases": {"quick": 600, "thorough": 80000},
+    "cases": {"quick": 1600, "thorough": 80000},
     "workers": {"quick": 8, "thorough": 16},
     "timeout": {"quick": 600, "thorough": 5400},
     "deciding": [
@@ -434,6 +434,26 @@ def tree_case(ctx):
     evaluate(ctx, root, fields, tree)
     ctx.check("C03.operands_untouched",
               all(core.field_digest(f) == d for (f, _), d in zip(fields, before)), tree=tree[:400])
+    if rng.random() < 0.5:
+        # history: the same expression again after the operands' values and validity were
+        # overwritten in place through the arrays the getters return (everything derived
+        # from the old values - norms, orientations, ... - has been computed once by now)
+        for f, _ in fields:
+            a = f.array
+            mag = 10.0 ** rng.uniform(-2, 2)
+            if a.dtype.kind in "iu":
+                a[...] = rng.integers(-50, 50, a.shape)
+            elif a.dtype.kind == "c":
+                a[...] = (rng.normal(size=a.shape) + 1j * rng.normal(size=a.shape)) * mag
+            else:
+                a[...] = rng.normal(size=a.shape) * mag
+            f.valid[...] = gen.rand_valid(rng, f.valid.shape)
+        ctx.event("tree.re-evaluated_after_inplace_writes")
+        before = [core.field_digest(f) for f, _ in fields]
+        evaluate(ctx, root, fields, tree + "  [again after in-place writes to the operands]")
+        ctx.check("C03.operands_untouched",
+                  all(core.field_digest(f) == d for (f, _), d in zip(fields, before)),
+                  tree=tree[:400], after_inplace_writes=True)
     ctx.sig(("tree", spec.nd, tuple(sorted(root.ops())), tuple(sorted({d for _, d in fields}))),
             nontrivial=root.count() >= 2)
     if ctx.i % 50 == 0:
@@ -512,16 +532,34 @@ def reject_case(ctx):
     nv = int(rng.integers(1, 5))
     f, _ = make_field(rng, mesh, nv)
     # a different mesh: shifted by a cell, other n, or other cell size
-    how = gen.pick(rng, ["shifted", "other_n", "other_cell"])
+    how = gen.pick(rng, ["shifted", "other_n", "other_cell", "coarser_same_region", "other_dims"])
     ax = int(rng.integers(0, spec.nd))
     pmin, cell, n = spec.pmin.copy(), spec.cell.copy(), spec.n.copy()
+    dims2 = spec.dims
+    if how == "coarser_same_region" and not np.any(n > 1):
+        how = "shifted"
     if how == "shifted":
         pmin[ax] += cell[ax] * float(rng.choice([1, -1, 0.5, 3]))
     elif how == "other_n":
         n[ax] += 1
-    else:
+    elif how == "other_cell":
         cell[ax] *= float(rng.choice([2, 0.5, 1.1]))
-    other_mesh = gen.MeshSpec(pmin, cell, n, spec.dims, spec.units, spec.flip).mesh()
+    elif how == "coarser_same_region":
+        # the same region cut into fewer cells: one cell along some (or all) of the axes
+        # that had several - array shapes that numpy alone would happily broadcast
+        multi = np.flatnonzero(n > 1)
+        pickd = multi if rng.random() < 0.5 else rng.choice(multi, int(rng.integers(1, len(multi) + 1)),
+                                                            replace=False)
+        n2 = n.copy()
+        n2[pickd] = 1
+        cell = cell * n / n2
+        n = n2
+    else:
+        # the same corners and cells, but other names for the directions
+        names = spec.dim_names
+        dims2 = [d + "2" for d in names] if (spec.nd == 1 or rng.random() < 0.5) \
+            else names[1:] + names[:1]
+    other_mesh = gen.MeshSpec(pmin, cell, n, dims2, spec.units, spec.flip).mesh()
     shape2 = (*[int(k) for k in n], nv)
     g = df.Field(other_mesh, nvdim=nv, value=gen.rand_values(rng, shape2, "float"))
     s2 = df.Field(other_mesh, nvdim=1, value=gen.rand_values(rng, shape2[:-1] + (1,), "float"))
@@ -532,7 +570,7 @@ def reject_case(ctx):
         calls["cross"] = lambda a, b: a.cross(b)
     for name, uf in UFUNC2.items():
         calls[name] = uf
-    same_shape = how == "shifted"  # numpy alone cannot notice this one
+    same_shape = how in ("shifted", "other_dims")  # numpy alone cannot notice these
     for name, fn in calls.items():
         for tag, x, y in (("fg", f, g), ("gf", g, f), ("f,scalar_on_other_mesh", f, s2)):
             if tag.startswith("f,scalar") and name in ("dot", "angle", "cross"):
